@@ -37,6 +37,8 @@ own_pio (bool), seed``):
                                          shared block not explained by the serial order)
 * ``rt/update_image/reader_sees_complete_tile`` + ``detail`` (read under the lock raised, or a partial
                                          contribution was visible)
+* ``rt/update_image/critical_sections_exclusive`` + ``detail`` (two processes were between "read returned" and
+                                         "about to write" at the same instant of the system-wide monotonic clock)
 * ``rt/update_image/updater_runs``     + ``detail`` (an updater raised / exit code != 0)
 * ``rt/update_image/terminates``       + ``timeout_s`` (watchdog; generous: >= 10x the expected time)
 
@@ -44,6 +46,17 @@ Bounds: quick: N in {2,4,8} x 64..100 updates per scenario, 8 scenarios (npy/fit
 both naming schemes, tiles (0,0,0) .. (7,100,77), disjoint and overlapping regions, delay 2-5 ms).
 thorough: N in {2,4,8,16} x 200 rounds (up to 3200 updates on one tile), 14 scenarios (21 200 updates).
 Only schedules the OS produces under this stress are explored, not every interleaving.
+
+Slow holder (witness keys ``hold_ms`` > 0, ``clock_factor``; both tiers: 2 scenarios quick, 4 thorough): updater 0
+enters its first update and STAYS between read and write for ``hold_ms`` of real time (2-3 s); the other updaters
+start only when it is inside, and in THEIR processes the interval clocks and the sleep function of the ``time``
+module (``time.perf_counter`` / ``time.monotonic`` (+ _ns) / ``time.sleep`` -- what ``filelock`` uses for its
+time-out and polling) run ``clock_factor`` times fast (60x / 600x: 2.5 s of holding are 2.5 / 25 minutes on the
+waiters' clock), so that any "give up waiting after T seconds and take the lock over" logic fires, while a lock
+that waits for the holder just polls more often.  ``time.time`` (wall clock, compared with file mtimes by
+filelock's stale-marker self-healing) is left alone.  Installed from the harness after the fork, in the waiter
+processes only; the harness itself uses the saved real functions.  The property requires the waiters to wait:
+same oracle as above (every contribution present, serial order exists, critical sections disjoint).
 
 Trusted: ``filelock.SoftFileLock`` (external), the OS's atomic O_EXCL create, numpy/astropy/PIL
 codecs; float32 holds integers < 2^24 exactly.
@@ -63,6 +76,36 @@ BLK = 8          # pixels per shared block
 PRIV0 = 256      # flat index where private pixels start (row 1); row 0 holds counter + shared blocks
 CAP = 5
 KEYS = ("n_updaters", "rounds", "pio_format", "mode", "scheme", "pos", "regions", "delay_ms", "own_pio", "seed")
+KEYS_OPT = {"hold_ms": 0, "clock_factor": 1}      # slow-holder scenarios (absent in older witnesses)
+ALLKEYS = KEYS + tuple(KEYS_OPT)
+
+# the harness' own clock / sleep: never the accelerated ones installed in waiter processes
+_real_sleep = time.sleep
+_real_monotonic = time.monotonic
+
+
+def install_fast_clock(factor, counter=None):
+    """Make the interval clocks and sleep of the ``time`` module run ``factor`` times fast IN THIS PROCESS
+    (filelock's acquire loop reads ``time.perf_counter`` for its time-out and calls ``time.sleep`` between polls)."""
+    real = {n: getattr(time, n) for n in ("perf_counter", "monotonic", "perf_counter_ns", "monotonic_ns", "sleep")}
+    t0 = {n: real[n]() for n in real if n != "sleep"}
+
+    def warped(n, as_int):
+        def clock():
+            v = t0[n] + (real[n]() - t0[n]) * factor
+            return int(v) if as_int else v
+        return clock
+
+    def sleep(secs):
+        if counter is not None:
+            with counter.get_lock():
+                counter.value += 1
+        real["sleep"](secs / float(factor))
+
+    for n in t0:
+        setattr(time, n, warped(n, n.endswith("_ns")))
+    time.sleep = sleep
+    return real
 
 
 # ---- value coding ---------------------------------------------------------------------------
@@ -136,7 +179,7 @@ def read_raw(path, ext):
 
 # ---- the stress itself (isolated interpreter) -------------------------------------------------
 
-def _updater(k, cfg, pio, barrier, logdir):
+def _updater(k, cfg, pio, barrier, logdir, inside_evt=None, fast_sleeps=None):
     import json
     import random
     import traceback
@@ -152,20 +195,33 @@ def _updater(k, cfg, pio, barrier, logdir):
     pos = Pos(*cfg["pos"])
     log = []
     status = "ok"
+    hold_s = cfg.get("hold_ms", 0) / 1000.0
+    fast = None
     try:
         barrier.wait(60)
+        if hold_s and k > 0:
+            # waiter: start when the holder is inside its critical section, with a fast clock
+            if not inside_evt.wait(60):
+                raise RuntimeError("checker: the holder never got inside")
+            fast = {"factor": cfg["clock_factor"], "t_real": _real_monotonic()}
+            install_fast_clock(cfg["clock_factor"], fast_sleeps)
+            fast["t_fast"] = time.monotonic()
         for r in range(rounds):
             if cfg["delay_ms"]:
-                time.sleep(rng.random() * cfg["delay_ms"] / 1000.0)
+                _real_sleep(rng.random() * cfg["delay_ms"] / 1000.0)
             null_first = rng.random() < 0.25
             for what in (("null", "real") if null_first else ("real",)):
                 phase = "acquire+read"
                 try:
                     with pio.update_image(pos, masked_mode=imode, default="masked") as basis:
                         phase = "inside"
+                        t_in = _real_monotonic()
                         arr = np.array(basis.asarray())
                         snap = summarize(mode, arr, n_up, rounds)
-                        snap.update({"k": k, "r": r, "what": what})
+                        snap.update({"k": k, "r": r, "what": what, "t_in": t_in})
+                        if hold_s and k == 0 and r == 0 and what == "real":
+                            inside_evt.set()
+                            _real_sleep(hold_s)          # the slow holder: a long time between read and write
                         if mode == "F32":
                             src = np.full((256, 256), np.nan, np.float32)
                         else:
@@ -181,11 +237,19 @@ def _updater(k, cfg, pio, barrier, logdir):
                                 sf[8 + j * BLK: 8 + (j + 1) * BLK] = enc(mode, me)
                         img = Image.from_array(src)
                         img.update_into_maskable_buffer(basis, slice(None), slice(None), slice(None), slice(None))
+                        snap["t_out"] = _real_monotonic()
                         phase = "write+release"
+                    if fast is not None and "waited_fast_s" not in fast:
+                        # how long the first acquisition took on this process' (accelerated) clock
+                        fast["waited_fast_s"] = time.monotonic() - fast["t_fast"]
+                        fast["waited_real_s"] = _real_monotonic() - fast["t_real"]
+                        snap["first_wait"] = {"fast_clock_s": fast["waited_fast_s"], "real_s": fast["waited_real_s"]}
                     log.append(snap)
                 except Exception as e:
                     log.append({"k": k, "r": r, "what": what, "error": "%s: %s" % (type(e).__name__, e), "phase": phase,
                                 "tb": traceback.format_exc().strip().splitlines()[-4:]})
+                    if hold_s and k == 0 and r == 0 and what == "real":
+                        inside_evt.set()                 # never leave the waiters blocked
     except BaseException as e:
         status = "%s: %s" % (type(e).__name__, e)
     with open(os.path.join(logdir, "u%d.json" % k), "w") as f:
@@ -212,14 +276,16 @@ def stress(cfg):
         with calls.get_lock():
             calls.value += 1
         if delay:
-            time.sleep(delay)
+            _real_sleep(delay)
         return res
     PyramidIO.read_image = slow_read      # harness-side widening of the read -> write window
 
     pio = PyramidIO(base, scheme=cfg["scheme"], default_format=cfg["pio_format"])
     ctxm = mp.get_context("fork")
     barrier = ctxm.Barrier(cfg["n_updaters"])
-    procs = [ctxm.Process(target=_updater, args=(k, cfg, pio, barrier, logdir)) for k in range(cfg["n_updaters"])]
+    inside_evt = ctxm.Event()
+    fast_sleeps = ctxm.Value("i", 0)
+    procs = [ctxm.Process(target=_updater, args=(k, cfg, pio, barrier, logdir, inside_evt, fast_sleeps)) for k in range(cfg["n_updaters"])]
     t0 = time.time()
     for p in procs:
         p.start()
@@ -252,7 +318,7 @@ def stress(cfg):
             continue
         tile_files.extend(os.path.relpath(os.path.join(root, f), base) for f in files)
     return {"exitcodes": exitcodes, "statuses": statuses, "logs": logs, "final": final, "final_err": final_err,
-            "secs": secs, "read_calls": calls.value, "files": sorted(tile_files)}
+            "secs": secs, "read_calls": calls.value, "files": sorted(tile_files), "fast_clock_sleeps": fast_sleeps.value}
 
 
 # ---- oracle -----------------------------------------------------------------------------------
@@ -279,6 +345,15 @@ def analyse(cfg, res):
     if torn:
         out.append(("rt/update_image/reader_sees_complete_tile", {"detail": str(torn[0])[:600]},
                     "%d reads under the lock saw a partially applied contribution, e.g. %s" % (len(torn), torn[0])))
+    # critical sections (read returned .. about to write), on the system-wide monotonic clock, must be disjoint
+    iv = sorted((s["t_in"], s["t_out"], s["k"], s["r"], s["what"]) for s in snaps if "t_in" in s and "t_out" in s)
+    over = [(a, b) for a, b in zip(iv, iv[1:]) if b[0] < a[1] and a[2] != b[2]]
+    if over:
+        a, b = over[0]
+        d = "updater %d round %d (%s) was inside from %.6f to %.6f s, updater %d round %d (%s) got inside at %.6f s" % (
+            a[2], a[3], a[4], 0.0, a[1] - a[0], b[2], b[3], b[4], b[0] - a[0])
+        out.append(("rt/update_image/critical_sections_exclusive", {"detail": d, "n_overlaps": len(over)},
+                    "%d pair(s) of updates were between read and write at the same time: %s" % (len(over), d)))
     real = [s for s in snaps if s["what"] == "real"]
     final = res["final"]
     if final is None:
@@ -342,9 +417,19 @@ def analyse(cfg, res):
 
 # ---- scenarios ----------------------------------------------------------------------------------
 
-def scenario(n, rounds, pio_format, mode, scheme, pos, regions, delay_ms, own_pio, seed):
+def scenario(n, rounds, pio_format, mode, scheme, pos, regions, delay_ms, own_pio, seed, hold_ms=0, clock_factor=1):
     return {"n_updaters": n, "rounds": rounds, "pio_format": pio_format, "mode": mode, "scheme": scheme, "pos": list(pos),
-            "regions": regions, "delay_ms": delay_ms, "own_pio": own_pio, "seed": seed}
+            "regions": regions, "delay_ms": delay_ms, "own_pio": own_pio, "seed": seed, "hold_ms": hold_ms, "clock_factor": clock_factor}
+
+
+def slow_holder_scenarios(ctx, s):
+    """Updater 0 holds the lock for 2-3 s of real time; the others wait with a 60x / 600x clock."""
+    out = [scenario(4, 4, "npy", "F32", "L/Y/YX", (2, 1, 3), "overlap", 2, False, s + 100, hold_ms=2500, clock_factor=60),
+           scenario(3, 3, "fits", "F32", "LXY", (1, 0, 1), "disjoint", 2, True, s + 101, hold_ms=2000, clock_factor=600)]
+    if ctx.thorough:
+        out += [scenario(8, 6, "png", "RGBA", "L/Y/YX", (0, 0, 0), "overlap", 3, True, s + 102, hold_ms=3000, clock_factor=60),
+                scenario(2, 5, "npy", "RGBA", "L/Y/YX", (6, 40, 2), "overlap", 0, False, s + 103, hold_ms=3000, clock_factor=3600)]
+    return out
 
 
 def build(ctx):
@@ -359,7 +444,7 @@ def build(ctx):
             scenario(4, 25, "png", "RGBA", "L/Y/YX", (0, 0, 0), "overlap", 5, True, s + 5),
             scenario(2, 50, "png", "RGBA", "LXY", (4, 9, 15), "disjoint", 3, False, s + 6),
             scenario(8, 12, "npy", "RGBA", "L/Y/YX", (5, 31, 0), "overlap", 0, True, s + 7),
-        ]
+        ] + slow_holder_scenarios(ctx, s)
     out = []
     i = 0
     for n in (2, 4, 8, 16):
@@ -370,12 +455,12 @@ def build(ctx):
             i += 1
     out.append(scenario(8, 200, "npy", "RGBA", "L/Y/YX", (5, 31, 0), "overlap", 0, True, s + 50))
     out.append(scenario(16, 100, "npy", "F32", "L/Y/YX", (2, 0, 3), "overlap", 0, False, s + 51))
-    return out
+    return out + slow_holder_scenarios(ctx, s)
 
 
 def _timeout(cfg):
     updates = cfg["n_updaters"] * cfg["rounds"] * 1.25
-    return int(120 + updates * (0.5 + cfg["delay_ms"] / 1000.0))
+    return int(120 + updates * (0.5 + cfg["delay_ms"] / 1000.0) + 4 * cfg.get("hold_ms", 0) / 1000.0)
 
 
 def execute(cfg, workdir):
@@ -401,6 +486,12 @@ def run(ctx):
               "png/npy (RGBA); schemes L/Y/YX and LXY; disjoint and overlapping regions; injected read->write delay 0..5 ms"
               % (len(scs), sorted(set(c["n_updaters"] for c in scs)), sorted(set(c["rounds"] for c in scs))))
     ctx.bound("schedules: those the OS produces under a start barrier + random jitter (not every interleaving)")
+    ctx.bound("slow holder: %d of the scenarios; updater 0 stays between read and write for %s ms of real time while the other "
+              "updaters (started once it is inside) run with time.perf_counter/monotonic/sleep accelerated %s-fold in their "
+              "processes (>= 2 minutes of lock waiting on their clock)"
+              % (len([c for c in scs if c["hold_ms"]]), sorted(set(c["hold_ms"] for c in scs if c["hold_ms"])),
+                 sorted(set(c["clock_factor"] for c in scs if c["hold_ms"]))))
+    ctx.assume("CLOCK_MONOTONIC is one clock for all processes of the machine (critical-section intervals are compared across processes)")
     ctx.assume("filelock.SoftFileLock gives mutual exclusion on a local file system (O_EXCL create)")
     ctx.assume("numpy/astropy/PIL codecs; float32 exact for integers < 2^24")
 
@@ -414,24 +505,39 @@ def run(ctx):
     per = {}
     updates = 0
     reads = 0
+    fast_sleeps = 0
+    waited_ok = 0
+    slow_samples = []
     with ThreadPoolExecutor(max_workers=8 if not ctx.thorough else 4) as ex:
         results = dict(ex.map(work, list(enumerate(scs))))
     for i, cfg in enumerate(scs):
         status, res, secs, t = results[i]
-        ctx.case(tuple(str(cfg[k]) for k in KEYS))
+        ctx.case(tuple(str(cfg[k]) for k in ALLKEYS))
         if status == "ok":
             updates += len([l for l in res["logs"] if l.get("what") == "real" and "error" not in l])
             reads += res["read_calls"]
-            ctx.sample({"scenario": {k: cfg[k] for k in KEYS}, "updates_completed": len(res["logs"]), "secs": round(res["secs"], 1),
+            fw = [l["first_wait"] for l in res["logs"] if "first_wait" in l]
+            if cfg["hold_ms"]:
+                fast_sleeps += res.get("fast_clock_sleeps", 0)
+                slow_samples.append({"scenario": {k: cfg[k] for k in ALLKEYS}, "waiters_first_acquisition": fw,
+                                     "fast_clock_sleep_calls": res.get("fast_clock_sleeps", 0)})
+                # checker sanity: the waiters did wait (on their clock) far longer than any sensible time-out
+                if fw and min(w["fast_clock_s"] for w in fw) >= 0.5 * cfg["hold_ms"] / 1000.0 * cfg["clock_factor"]:
+                    waited_ok += 1
+            ctx.sample({"scenario": {k: cfg[k] for k in ALLKEYS}, "updates_completed": len(res["logs"]), "secs": round(res["secs"], 1),
                         "final": res["final"] and {"counter": res["final"]["counter"], "counts": res["final"]["counts"]},
                         "lock_files_left": [f for f in res["files"] if f.endswith(".lock")]})
         for obl, extra, msg in judge(cfg, status, res, t):
             n = per.get(obl, 0)
             per[obl] = n + 1
             if n < CAP:
-                w = {k: cfg[k] for k in KEYS}
+                w = {k: cfg[k] for k in ALLKEYS}
                 w.update(extra)
                 ctx.violation(obl, w, msg)
+    n_slow = len([c for c in scs if c["hold_ms"]])
+    ctx.monitor("slow_holder_fast_clock_sleep_calls", fast_sleeps)
+    ctx.note("slow holder: %d scenarios, in %d every waiter's first acquisition took >= half the hold time on its accelerated clock; "
+             "%s" % (n_slow, waited_ok, slow_samples[:2]))
     ctx.monitor("update_image_calls_completed", updates)
     ctx.monitor("read_image_wrapper_calls", reads)
     ctx.note("completed real updates: %d; reads through the delaying wrapper: %d; problems: %s" % (updates, reads, per))
@@ -441,6 +547,7 @@ def replay(obligation, witness):
     import shutil
     import tempfile
     cfg = {k: witness[k] for k in KEYS}
+    cfg.update({k: witness.get(k, d) for k, d in KEYS_OPT.items()})
     wd = tempfile.mkdtemp(prefix="c10_replay_")
     try:
         status, res, secs, t = execute(cfg, os.path.join(wd, "p"))
